@@ -5,6 +5,7 @@
 #include <aws/common/ring_buffer.h>
 #include <aws/common/thread.h>
 #include <aws/common/error.h>
+#include <aws/common/logging.h>
 
 #include <deque>
 #include <vector>
@@ -34,7 +35,12 @@ struct Ctx {
     sim::Gate gate;
     uint64_t ops_done = 0;
     bool two_threads = false;
+    // a logger that ships its lines through the same ring (legal on the acquiring thread): dormant unless the ring code logs
+    bool ring_ready = false, in_logger = false;
+    int acq_tid = -1;
+    uint64_t log_ctr = 0, nested_acquires = 0;
 };
+static Ctx *g15 = nullptr;
 
 void check_buf(Ctx &c, const struct aws_byte_buf &b, size_t lo, size_t hi, const char *what) {
     if (b.buffer < c.ring.allocation || b.buffer + b.capacity > c.ring.allocation_end)
@@ -79,6 +85,7 @@ void do_acquire(Ctx &c, const sim::Op &op) {
     struct aws_byte_buf dest;
     AWS_ZERO_STRUCT(dest);
     void *head_before = aws_atomic_load_ptr(&c.ring.head);
+    uint64_t nested_before = c.nested_acquires;
     sim::note(sim::PK_HARNESS, nullptr, upto ? 2 : 1);
     int rc = upto ? aws_ring_buffer_acquire_up_to(&c.ring, mn, n, &dest) : aws_ring_buffer_acquire(&c.ring, n, &dest);
     c.ops_done++;
@@ -96,14 +103,37 @@ void do_acquire(Ctx &c, const sim::Op &op) {
     } else {
         if (aws_last_error() != AWS_ERROR_OOM)
             sim::violation("c15:errcode", "failed acquire raised error %d, expected AWS_ERROR_OOM", aws_last_error());
-        if (must_succeed)
+        bool nested = c.nested_acquires != nested_before; // a logger acquired from the ring inside this call: space and head legitimately changed
+        if (must_succeed && !nested)
             sim::violation("c15:must-succeed", "acquire%s(%zu) failed although nothing is outstanding (ring size %zu, %zu acquired and released so far)",
                            upto ? "_up_to" : "", n, c.ring_size, c.entries.size());
         if (dest.buffer || dest.len || dest.capacity) sim::violation("c15:failed-changed", "failed acquire modified the destination buffer");
-        if (aws_atomic_load_ptr(&c.ring.head) != head_before) sim::violation("c15:failed-changed", "failed acquire moved the ring head");
+        if (!nested && aws_atomic_load_ptr(&c.ring.head) != head_before) sim::violation("c15:failed-changed", "failed acquire moved the ring head");
         sim::probe("acquire_refused");
     }
 }
+
+// ---- logger that takes the memory for its "line" from the ring under test (only on the thread that is allowed to acquire)
+int rl_log(struct aws_logger *, enum aws_log_level, aws_log_subject_t, const char *, ...) {
+    Ctx *c = g15;
+    if (!c || !c->ring_ready || c->in_logger) return AWS_OP_SUCCESS;
+    if (sim::self() != c->acq_tid) return AWS_OP_SUCCESS;
+    c->in_logger = true;
+    sim::probe("ring_code_logged_and_the_logger_acquired_from_the_ring");
+    c->nested_acquires++;
+    sim::Op op;
+    op.kind = OP_ACQ; op.thr = 0;
+    size_t lim = c->ring_size < 96 ? c->ring_size : 96;
+    op.a = (int64_t)(1 + (c->log_ctr++ * 37) % lim);
+    do_acquire(*c, op);
+    c->in_logger = false;
+    return AWS_OP_SUCCESS;
+}
+enum aws_log_level rl_level(struct aws_logger *, aws_log_subject_t) { return AWS_LL_TRACE; }
+void rl_clean_up(struct aws_logger *) {}
+int rl_set_level(struct aws_logger *, enum aws_log_level) { return AWS_OP_SUCCESS; }
+struct aws_logger_vtable g_rl_vtable = {rl_log, rl_level, rl_clean_up, rl_set_level};
+struct aws_logger g_ring_logger = {&g_rl_vtable, nullptr, nullptr};
 
 void do_release_next(Ctx &c) {
     if (c.next_release >= c.entries.size()) return;
@@ -141,6 +171,7 @@ void run_ops(Ctx &c, int thr) {
 
 void acquirer_fn(void *arg) {
     Ctx &c = *(Ctx *)arg;
+    c.acq_tid = sim::self();
     run_ops(c, 0);
     c.acq_done = true;
     c.gate.notify_all();
@@ -166,6 +197,10 @@ RunInfo run(const sim::Plan &plan) {
     c.two_threads = plan.get("two_threads", 1) != 0;
     sim::begin(plan);
     if (aws_ring_buffer_init(&c.ring, alloc, c.ring_size)) sim::violation("c15:init", "ring buffer init failed");
+    g15 = &c;
+    c.acq_tid = sim::self();
+    c.ring_ready = true;
+    aws_logger_set(&g_ring_logger);
     if (c.two_threads) {
         struct aws_thread ta, tr;
         aws_thread_init(&ta, alloc);
@@ -196,6 +231,9 @@ RunInfo run(const sim::Plan &plan) {
         if (aws_ring_buffer_acquire(&c.ring, c.ring_size + 1, &over) == AWS_OP_SUCCESS)
             sim::violation("c15:size", "acquire(capacity+1) succeeded");
     }
+    c.ring_ready = false;
+    aws_logger_set(nullptr);
+    g15 = nullptr;
     aws_ring_buffer_clean_up(&c.ring);
     simalloc::expect_balanced("end of run");
     RunInfo ri;
